@@ -107,7 +107,8 @@ RULE = ("300 (quick) / 3000 (thorough) random datasets of 0-7 rows over tiny val
         "+ 160/2400 datasets whose stored types differ from the symbol types (one focus column filled with one or two foreign kinds: "
         "ints incl. 2^53+1, 2^24+1, min/max under a float64 or string symbol, floats incl. 5e-324, 1e21, NaN, bools, times) x 25/30 queries; "
         "+ 60/600 datasets x 30 queries over sort fields the parser resolves but the comparator may refuse (tags.k, owner.label, owner.id, owner, "
-        "an AnyType symbol, the child stores' own symbol, set symbols and unknown names through a foreign symbol table); thorough adds every skip x "
+        "an AnyType symbol, the child stores' own symbol, set symbols and unknown names through a foreign symbol table); + 60/600 datasets x 30 queries whose sort lists (direction absent / ASC / asc / DESC / desc / DeSc) and filters use keyword-like ALIAS names of the "
+        "stored fields (shortDesc, sortBy, idx, limitX, skipper, basc, nota, android, betweenx, t_desc, the quoted identifier 'desc', ...); thorough adds every skip x "
         "limit pool pair x 14 sort specs on datasets of 0..6 rows. Each case runs QueryIds, QueryIdsC twice on one query object (+ the "
         "skip/limit left in it), QueryWithCursorC (bucket cursor and the provider), IterateIds drained, Seek on the unpaged cursor, the sub-query "
         "cursor scanner of the owner's things, and QueryIdsC with a foreign-parsed query. non-trivial = at least two rows match and a sort field, "
